@@ -176,7 +176,13 @@ META["C06"] = dict(
          "overwritten or removed inside the window is not resurrected, an untouched key names the copy), C06_window_reads_after_finish, "
          "C06_window_exactly_once_moved, decide witnesses that the unconditional re-pointing (defect D29, repaired) and the weakened "
          "comparison of a seeded change resurrect the old value, and C06_refused_path_records_old_twice (finding D32: on the refused path "
-         "the old location, already recorded by the writer, is recorded again). Directed schedules in the corpus reconfirm the known "
+         "the old location, already recorded by the writer, is recorded again). The hand-over windows (Sth/Props/C06H.lean: "
+         "C06_handover_window_invisible - calls after the freelist hand-over and after the collector's own flush: every call returns what "
+         "the map returns, no call writes the .gc file, no handed-over entry names a pooled record at the apply, the apply keeps the GC "
+         "invariant whatever its outcome and leaves everything the windows recorded for the next pass) and index GC between busy check "
+         "and mark (Sth/Props/C06I.lean: C06_igc_free_verdict_stable - the bucket table only moves forward, so 'not in use' never flips "
+         "back - and C06_igc_late_mark_safe - a file reaped on the basis of an EARLIER table read and written at a later state is a legal "
+         "reap then: the one-step model covers the step-wise collector). Directed schedules in the corpus reconfirm the known "
          "windows D18a/D18b (a READER holding a position across a collector step) on every run; those are outside the theorems.",
     note=SCHED_NOTE,
 )
